@@ -18,8 +18,8 @@ def pcHoldS : PC → Nat → Nat
   | .freeUnlock j, i => ind (i = j)
   | .idle, _ | .getCheck _, _ | .getInc _, _ | .getCas _ _, _ | .apFill _ _, _ | .apPlace _ _, _
   | .crashed _, _ | .freeDec _, _ | .lockSpin _, _ | .lockTry _, _ | .unlockL _, _ | .tlStart _ _, _
-  | .tl0 _ _, _ | .tl1 _ _, _ | .tlBack _ _, _ | .tuStart _, _ | .tu1 _, _ | .tu0 _, _ | .addLock _ _, _
-  | .addBody _ _, _ | .addUnlock _ _, _ | .popLock _ _, _ | .popInit _, _ | .popScan _ _, _
+  | .tl0 _ _, _ | .tl1 _ _, _ | .tlBack _ _, _ | .tuStart _, _ | .tu1 _, _ | .tu0 _, _ | .addLock _ _ _, _ | .numInc _ _ _, _ | .relDec _ _ _, _ | .retire _, _ | .setUnf _ _, _ | .loadNum, _
+  | .addBody _ _ _, _ | .addUnlock _ _ _, _ | .popLock _ _, _ | .popInit _, _ | .popScan _ _, _
   | .popRemove _ _ _, _ | .popUnlock _ _, _ | .qsz _, _ | .cInc _, _ | .cDec _, _ | .cPostInc _, _
   | .cPreAdd _ _, _ | .cPostAdd _ _, _ | .cPreSub _ _, _ | .cLoad _, _ | .lfLoad _ _, _
   | .lfCas _ _ _, _ => 0
@@ -93,9 +93,13 @@ theorem sumN_upd (f : Nat → Nat) (j n v : Nat) (h : j < n) :
 local macro "fin" : tactic =>
   `(tactic| ((try simp only [toNat_upd, ind, Bool.toNat_true, Bool.toNat_false] at *); (try split_ifs at *) <;> (try simp_all) <;> omega))
 
-theorem holdS_dispatch (i : Nat) (th : Thread) (c : Cmd) (hpc : th.pc = .idle) :
-    holdS i (dispatch th c) = holdS i th := by
-  cases c <;> simp only [dispatch, holdS, hpc, pcHoldS, ret] <;> try rfl
+theorem holdS_dispatch (cfg : Cfg) (i : Nat) (th : Thread) (c : Cmd) (hpc : th.pc = .idle) :
+    holdS i (dispatch cfg th c) = holdS i th := by
+  cases c
+  case release =>
+    simp only [dispatch]
+    (repeat' split) <;> simp [holdS, hpc, pcHoldS, ret]
+  all_goals (simp only [dispatch, holdS, hpc, pcHoldS, ret]; try rfl)
   all_goals
     split <;> simp only [pcHoldS, Nat.add_zero]
   · rename_i j k hk
@@ -121,7 +125,7 @@ theorem exec_holdS (cfg : Cfg) (m : Mem) (th : Thread) (i : Nat)
     · simp
     · rename_i c rest hp
       simp only
-      rw [holdS_dispatch i _ c (by simp [hpc])]
+      rw [holdS_dispatch cfg i _ c (by simp [hpc])]
       simp [holdS, hpc]
   case tlStart c t => cases c <;> slotcase
   case tl0 c t => cases c <;> slotcase
@@ -161,9 +165,13 @@ theorem mem_erase_lt (l : List Nat) (k n : Nat) (h : ∀ i ∈ l, i < n) : ∀ i
   fun i hi => h i (List.mem_of_mem_erase hi)
 
 theorem threadWf_dispatch (cfg : Cfg) (th : Thread) (c : Cmd) (_hpc : th.pc = .idle)
-    (h : ThreadWf cfg th) : ThreadWf cfg (dispatch th c) := by
+    (h : ThreadWf cfg th) : ThreadWf cfg (dispatch cfg th c) := by
   obtain ⟨h1, h2, h3, h4⟩ := h
-  cases c <;> simp only [dispatch, ret] <;> (try split) <;>
+  cases c
+  case release =>
+    simp only [dispatch, ret]
+    (repeat' split) <;> (refine ⟨?_, ?_, ?_, ?_⟩ <;> simp_all [pcSlot])
+  all_goals simp only [dispatch, ret] <;> (try split) <;>
     (first
      | (refine ⟨?_, ?_, ?_, ?_⟩ <;> simp_all [pcSlot] <;> done)
      | skip)
@@ -245,10 +253,10 @@ def decP (th : Thread) : Nat := decPC th.pc
 def CountInv (cfg : Cfg) (s : State) : Prop :=
   s.mem.taken + (sumT incP s.threads : Int) = (cnt s.mem.flags cfg.size : Int) + (sumT decP s.threads : Int)
 
-theorem incP_dispatch (th : Thread) (c : Cmd) : incP (dispatch th c) = 0 := by
-  cases c <;> simp only [dispatch, incP, ret] <;> (try split) <;> simp [incPC]
-theorem decP_dispatch (th : Thread) (c : Cmd) : decP (dispatch th c) = 0 := by
-  cases c <;> simp only [dispatch, decP, ret] <;> (try split) <;> simp [decPC]
+theorem incP_dispatch (cfg : Cfg) (th : Thread) (c : Cmd) : incP (dispatch cfg th c) = 0 := by
+  cases c <;> simp only [dispatch, incP, ret] <;> (repeat' split) <;> simp [incPC]
+theorem decP_dispatch (cfg : Cfg) (th : Thread) (c : Cmd) : decP (dispatch cfg th c) = 0 := by
+  cases c <;> simp only [dispatch, decP, ret] <;> (repeat' split) <;> simp [decPC]
 
 theorem exec_count (cfg : Cfg) (m : Mem) (th : Thread) (hwf : ThreadWf cfg th)
     (hfl : ∀ j, th.pc = .freeUnlock j → m.flags j = true) :
@@ -361,10 +369,10 @@ def PhotonInv (cfg : Cfg) (s : State) : Prop :=
   sumN s.mem.count cfg.size + sumT pend s.threads + sumT (·.disc) s.threads + sumT (·.lost) s.threads
     = sumT (·.inj) s.threads
 
-theorem photon_dispatch (th : Thread) (c : Cmd) :
-    pendPC (dispatch th c).pc = 0 ∧ (dispatch th c).disc = th.disc ∧ (dispatch th c).lost = th.lost ∧
-    (dispatch th c).inj = th.inj := by
-  cases c <;> simp only [dispatch, ret] <;> (try split) <;> simp [pendPC, pendO]
+theorem photon_dispatch (cfg : Cfg) (th : Thread) (c : Cmd) :
+    pendPC (dispatch cfg th c).pc = 0 ∧ (dispatch cfg th c).disc = th.disc ∧ (dispatch cfg th c).lost = th.lost ∧
+    (dispatch cfg th c).inj = th.inj := by
+  cases c <;> simp only [dispatch, ret] <;> (repeat' split) <;> simp [pendPC, pendO]
 
 theorem exec_photon (cfg : Cfg) (m : Mem) (th : Thread) (hwf : ThreadWf cfg th) :
     sumN (exec cfg m th).1.count cfg.size + pend (exec cfg m th).2 + (exec cfg m th).2.disc
@@ -377,7 +385,7 @@ theorem exec_photon (cfg : Cfg) (m : Mem) (th : Thread) (hwf : ThreadWf cfg th) 
     split
     · simp
     · rename_i c0 rest hp
-      have := photon_dispatch { th with pc := .idle, prog := rest } c0
+      have := photon_dispatch cfg { th with pc := .idle, prog := rest } c0
       obtain ⟨h1, h2, h3, h4⟩ := this
       have h0 : pendPC PC.idle = 0 := rfl
       simp only [pend, h1, h2, h3, h4]
